@@ -48,7 +48,8 @@ Print Assumptions C02_refuted.
 (* Partial: histories in which no action outputs a directory (executable classifier defect_class). *)
 Theorem C02_partial :
   (forall (h : list hstep) (r : repo) (req : list str),
-     wf_history (h ++ [HBuild true r req]) -> od_free (h ++ [HBuild true r req]) ->
+     wf_history (h ++ [HBuild true r req]) -> tool_free_history (h ++ [HBuild true r req]) = true ->
+     od_free (h ++ [HBuild true r req]) ->
      (forall t, In t (history_targets (h ++ [HBuild true r req])) -> defect_class t = None) ->
      fg_dir_free (h ++ [HBuild true r req]) = true ->
      let cached := plz_build true r req (run_history h empty_store) in
@@ -62,8 +63,8 @@ Theorem C02_partial :
         build_rule true r rn t = run_action true r rn t ((t_defkey t, []), sk)).
 Proof.
   split.
-  - intros h r req Hwf Hod Hdf Hfd.
-    destruct (incremental_is_clean_files true h r req Hwf Hdf Hfd (od_free_quiet _ _ Hod)) as (H1 & H2 & H3).
+  - intros h r req Hwf Htf Hod Hdf Hfd.
+    destruct (incremental_is_clean_files true h r req Hwf Htf Hdf Hfd (od_free_quiet _ _ Hod)) as (H1 & H2 & H3).
     split; [exact H1|]. split; [exact H2|]. intros t Ht Hnf. apply (H3 t Ht Hnf).
   - intros r rn t sk Hnb Hsk Hc. unfold build_rule. rewrite Hnb, Hsk. cbn [negb]. rewrite Hc. reflexivity.
 Qed.
@@ -78,7 +79,8 @@ Theorem C02_partial_path_inj :
     (forall c, good (File false c)) ->
     (forall t ins news, U t -> Forall good (map snd ins) -> result t ins = Some news -> Forall good (map snd news)) ->
     forall h r req,
-      forallb step_wf (h ++ [HBuild true r req]) = true -> od_free (h ++ [HBuild true r req]) ->
+      forallb step_wf (h ++ [HBuild true r req]) = true -> tool_free_history (h ++ [HBuild true r req]) = true ->
+      od_free (h ++ [HBuild true r req]) ->
       (forall t, In t (history_targets (h ++ [HBuild true r req])) -> U t) ->
       (forall n, In n (history_fg_srcs (h ++ [HBuild true r req])) -> good n) ->
       let cached := plz_build true r req (run_history h empty_store) in
@@ -87,8 +89,8 @@ Theorem C02_partial_path_inj :
       /\ forall t, In t (r_targets (restrict r req)) -> ~ In (t_label t) (rn_failed clean) ->
          outs_of (rn_st cached) t = outs_of (rn_st clean) t.
 Proof.
-  intros U good H1 H2 H3 H4 h r req Hwf Hod HU Hgs.
-  destruct (incremental_is_clean U good H1 H2 H3 H4 true h r req Hwf HU Hgs (od_free_quiet _ _ Hod)) as [Hf Ho].
+  intros U good H1 H2 H3 H4 h r req Hwf Htf Hod HU Hgs.
+  destruct (incremental_is_clean U good H1 H2 H3 H4 true h r req (wf_t_of _ Hwf Htf) HU Hgs (od_free_quiet _ _ Hod)) as [Hf Ho].
   split; [exact Hf|]. intros t Ht Hnf. apply (Ho t Ht Hnf).
 Qed.
 Print Assumptions C02_partial_path_inj.
@@ -105,6 +107,7 @@ Example C02_nonvacuous :
   /\ od_free (nv_h ++ [HBuild true nv_rA [s "//p:b"]])
   /\ (forall t, In t (history_targets (nv_h ++ [HBuild true nv_rA [s "//p:b"]])) -> defect_class t = None)
   /\ fg_dir_free (nv_h ++ [HBuild true nv_rA [s "//p:b"]]) = true
+  /\ tool_free_history (nv_h ++ [HBuild true nv_rA [s "//p:b"]]) = true
   /\ rn_log (plz_build true nv_rA [s "//p:b"] (run_history nv_h empty_store)) = []
   /\ outs_of (rn_st (plz_build true nv_rA [s "//p:b"] (run_history nv_h empty_store))) nv_b = [(s "b.out", Some (File false (s "12")))]
   /\ rn_log (plz_build false nv_rA [s "//p:b"] empty_store) = [s "//p:b"; s "//p:a"].
